@@ -217,7 +217,8 @@ class UdpInverterProtocol(InverterProtocol, asyncio.DatagramProtocol):
         """Timeout mechanism to prevent hanging transport"""
         if self.response_future and self.response_future.done():
             logger.debug("Response already received.")
-            self._retry = 0
+            if not self.response_future.cancelled():
+                self._retry = 0
         else:
             if self._timer:
                 logger.debug("Failed to receive response to %s in time (%ds).", self.command, self.timeout)
@@ -368,7 +369,8 @@ class TcpInverterProtocol(InverterProtocol, asyncio.Protocol):
     def _timeout_mechanism(self) -> None:
         """Retry mechanism to prevent hanging transport"""
         if self.response_future.done():
-            self._retry = 0
+            if not self.response_future.cancelled():
+                self._retry = 0
         else:
             if self._timer:
                 logger.debug("Failed to receive response to %s in time (%ds).", self.command, self.timeout)
